@@ -126,7 +126,8 @@ func (r *RNG) Picture() []Call {
 	cs := []Call{{Name: "reset", VB: vb, Pal: r.PremulPalette()}}
 	for p := 1 + r.Intn(3); p > 0; p-- {
 		if r.Chance(50) {
-			cs = append(cs, r.GradientSetup()...)
+			// every register a gradient uses is written explicitly, so that scaleProgram knows its role
+			cs = append(cs, r.GradientSetupOpt(false)...)
 		} else {
 			cs = append(cs, Call{Name: "csel", U8: uint8(r.Intn(64))}, Call{Name: "creg", Adj: uint8(r.Intn(7)), Col: r.Color()})
 		}
